@@ -79,6 +79,41 @@ pub fn c20_q_s_eq_diff() {
     reach!(want == Some(Rgb888::BLUE), "reach.blue");
 }
 
+/// diff on LISTED displays whose differences lie right of / below everything drawn on `self` (and with an
+/// empty `self`), symbolic probe: concrete loop bounds, so a diff that walks only part of the display gives
+/// a counterexample instead of exhausting the solver
+#[cfg_attr(kani, kani::proof, kani::unwind(66))]
+pub fn c20_q_s_diff_listed() {
+    let mut a = MockDisplay::<BinaryColor>::new();
+    let mut b = MockDisplay::<BinaryColor>::new();
+    reach!(side_ok(&a), "reach.side_is_8");
+    if !side_ok(&a) { return; }
+    a.set_pixel(Point::new(0, 0), Some(BinaryColor::On));
+    a.set_pixel(Point::new(1, 0), Some(BinaryColor::On));
+    b.set_pixel(Point::new(0, 0), Some(BinaryColor::On));
+    b.set_pixel(Point::new(1, 0), Some(BinaryColor::Off));
+    b.set_pixel(Point::new(3, 0), Some(BinaryColor::On));
+    b.set_pixel(Point::new(0, 2), Some(BinaryColor::Off));
+    b.set_pixel(Point::new(7, 7), Some(BinaryColor::On));
+    let q = cellq();
+    note!("q", q);
+    let spec = |x: Option<BinaryColor>, y: Option<BinaryColor>| match (x, y) {
+        (Some(_), None) => Some(Rgb888::GREEN),
+        (None, Some(_)) => Some(Rgb888::RED),
+        (Some(s), Some(o)) if s != o => Some(Rgb888::BLUE),
+        _ => None,
+    };
+    let d = a.diff(&b);
+    check!(d.get_pixel(q) == spec(a.get_pixel(q), b.get_pixel(q)), "C20.diff_cell");
+    let e = MockDisplay::<BinaryColor>::new();
+    let d2 = e.diff(&b);
+    check!(d2.get_pixel(q) == spec(None, b.get_pixel(q)), "C20.diff_cell");
+    check!(!(d2 == MockDisplay::new()), "C20.diff_empty_iff_equal");
+    let d3 = b.diff(&e);
+    check!(d3.get_pixel(q) == spec(b.get_pixel(q), None), "C20.diff_cell");
+    reach!(q == Point::new(7, 7), "reach.far_cell");
+}
+
 /// affected_area is the tight bounding box of the touched cells (zero-sized if none)
 #[cfg_attr(kani, kani::proof, kani::unwind(66))]
 pub fn c20_q_s_affected_area() {
